@@ -46,6 +46,7 @@ def dispatch (op : String) (args : List SExp) : Option OpResult :=
   | "enum.parse" => opEnumParse args
   | "cond" => opCond args
   | "cond.match" => opCondMatch args
+  | "cond.pass" => opCondPass args
   | "clean" => opClean args
   | "localpath" => opLocalPath args
   | "extpath" => opExtPath args
